@@ -12,6 +12,23 @@ def CACHE(name, op, slots, tier="quick"):
     )
 
 
+TICKET_GUARDS = {"->sessTickets": "g_sessTicketLock", "->hashkey": "g_sessTicketLock", "->symkey": "g_sessTicketLock",
+                 "->inUse": "g_sessTicketLock"}
+
+
+def TICKET(name, op):
+    return dict(
+        name=name, src="ticket.c", checks=[],
+        guards={"matrixssl/matrixssl.c": TICKET_GUARDS},
+        units=["matrixssl/hsNegotiateVersion.c"],
+        functions=["matrixUnlockSessionTicket", "getTicketKeys", "matrixSslLoadSessionTicketKeys", "matrixSslDeleteSessionTicketKey", "matrixCreateSessionTicket", "matrixSessionTicketLen"],
+        sources=["matrixssl/matrixssl.c"],
+        assumptions=["ticket: HMAC-SHA256 / AES-CBC / sslGetCipherSpec / psGetTime / psGetPrngLocked / sslWritePad are stubs (MAC key and range logged, arbitrary tag and plaintext); key list of 0..2 keys; ticket bytes arbitrary; optional application callback returning an arbitrary verdict"],
+        unwind=150, unwindset={"memcmp.0": 50, "vf_is_held:/for \\(i = 0/": 5},
+        cases=[dict(name="op%d" % op, defs={"VF_OP": op})],
+    )
+
+
 REG = CACHE("register", 3, [])
 REG["cases"] = [dict(name="op3_slot3_list%d" % l, defs={"VF_OP": 3, "VF_SLOT": 3, "VF_LIST": l}) for l in range(5)]
 
@@ -24,10 +41,11 @@ HARNESSES = [
     CACHE("invalidate", 1, [(5, "quick"), (-1, "thorough")]),
     CACHE("clear", 2, [(7, "quick"), (-1, "thorough")]),
     REG,
+    TICKET("ticket_unlock", 0), TICKET("ticket_key_load", 1), TICKET("ticket_key_delete", 2), TICKET("ticket_create", 3),
 ]
 PROPERTY = dict(level='model_checking',
     claim="Session-cache operations from an arbitrary table entry: resume succeeds only with the full 32-byte id of a valid, unexpired entry with matching version and EMS and installs exactly that entry's secret and suite; error invalidates; register/clear keep the table invariant; psDiffMsecs never underestimates the elapsed time.",
-    bounds='one table slot per query (slots 0, 31 and out-of-range quick; all 32 thorough)',
-    outside='session tickets (seal/unlock), TLS 1.3 PSK binders, the resumption decision in parseClientHello, multi-step histories beyond the inductive step',
+    bounds='one table slot per query (slots 0, 31 and out-of-range quick; all 32 thorough); session tickets: key list of 0..2 keys, arbitrary 128-byte ticket, HMAC/AES as logging stubs (unlock accepts only when the MAC over the exact range under the named key matched; key load/delete keep the list well-formed; create seals with the first key)',
+    outside='TLS 1.3 PSK binders, the resumption decision in parseClientHello, multi-step histories beyond the inductive step',
     explanation="Session-cache operations from an arbitrary table entry: resume succeeds only with the full 32-byte id of a valid, unexpired entry with matching version and EMS and installs exactly that entry's secret and suite; error invalidates; register/clear keep the table invariant; psDiffMsecs never underestimates the elapsed time.",
     assumptions=[])
